@@ -364,7 +364,11 @@ func instrumentFile(fset *token.FileSet, pkg *packages.Package, f *ast.File, src
 	}
 	// imports right after the package clause
 	pkgEnd := x.off(f.Name.End())
-	edits = append(edits, edit{pkgEnd, pkgEnd, "\n\nimport simrt \"verif/simrt\"\nimport \"unsafe\"\n"})
+	imp := "\n\nimport \"unsafe\"\n"
+	if !bytes.Contains(src, []byte(`simrt "verif/simrt"`)) {
+		imp = "\n\nimport simrt \"verif/simrt\"\nimport \"unsafe\"\n"
+	}
+	edits = append(edits, edit{pkgEnd, pkgEnd, imp})
 	edits = append(edits, edit{len(src), len(src), "\n\nvar _ = unsafe.Pointer(nil)\nvar _ = simrt.Acc\n"})
 	sort.SliceStable(edits, func(a, b int) bool {
 		if edits[a].from != edits[b].from {
